@@ -335,6 +335,56 @@ def eval_isolated(op):
     return {"od": seeds.digest(outcome), "outcome": outcome}
 
 
+def _frames_below():
+    f, n = sys._getframe(), 0
+    while f is not None:
+        n += 1
+        f = f.f_back
+    return n
+
+
+def _with_free_frames(fn, free):
+    """Calls fn() with exactly `free` Python frames left below the recursion limit
+    (a caller deep inside a recursive-descent parser, a framework's middleware
+    stack, or a process with a small recursion limit)."""
+    def down(k):
+        if k <= 0:
+            return fn()
+        return down(k - 1)
+
+    need = sys.getrecursionlimit() - _frames_below() - int(free) - 2
+    return down(max(0, need))
+
+
+def exec_depth(job):
+    """Stack exhaustion as a fault: the judged operation is called with few free
+    frames, ascending.  A call may fail with RecursionError (the caller's
+    environment, like a full disk); a call that *returns* must return the value
+    of the function.  Fresh child, no threads, no tracing."""
+    out = []
+    raised = returned = 0
+    for free in job["frees"]:
+        op = job["op"]
+
+        def call():
+            return ops.eval_judged(op)[0]
+
+        try:
+            outcome = _with_free_frames(call, free)
+        except RecursionError:
+            raised += 1
+            continue
+        if outcome == ("raised", "RecursionError"):
+            raised += 1
+            continue
+        returned += 1
+        rec = {"free": free, "od": seeds.digest(outcome)}
+        if job.get("want_full"):
+            rec["outcome"] = outcome
+        out.append(rec)
+    return {"obs": out, "raised": raised, "returned": returned}
+
+
 # --------------------------------------------------------------------------
 # scenario generation (orchestrator side; pure function of the run seed)
 # --------------------------------------------------------------------------
@@ -604,10 +654,12 @@ TIERS = {
     # runs, sim seconds cap, hash contexts, hashctx corpus extra docs
     "quick": {"runs": 2400, "sim_s": 30, "ctx": 24, "docs": 600, "ctx_s": 60,
               "sweep_pairs": 6, "sweep_stride": 1, "sweep_all_pairs": 0, "sweep_s": 42, "base_s": 20,
-              "sweep_double": 60, "sweep_opcode_pairs": 0, "sweep_lasts": False, "sweep_cancel_stride": 1},
+              "sweep_double": 60, "sweep_opcode_pairs": 0, "sweep_lasts": False, "sweep_cancel_stride": 1,
+              "depth_docs": 16, "depth_max": 140, "depth_s": 25},
     "thorough": {"runs": 60000, "sim_s": 900, "ctx": 192, "docs": 4000, "ctx_s": 500,
                  "sweep_pairs": 150, "sweep_stride": 1, "sweep_all_pairs": 12, "sweep_s": 800, "base_s": 400,
-                 "sweep_double": 600, "sweep_opcode_pairs": 6},
+                 "sweep_double": 600, "sweep_opcode_pairs": 6,
+                 "depth_docs": 200, "depth_max": 220, "depth_s": 300},
 }
 
 
@@ -993,6 +1045,66 @@ class Checker:
         forkpool.run_jobs([op for kd, op in todo], eval_isolated, workers=_cpu(), timeout=120,
                           on_result=got, deadline=deadline, stop=lambda: len(self.suspects) >= 40)
 
+    def phase_depth(self, atlas):
+        """Stack-depth sweep: seeded documents (references to party names, court
+        parentheticals, markup) are extracted with 1 .. N free frames."""
+        g = seeds.Streams(seeds.h64(self.root, "depth")).get("gen")
+        tg = textgen.Gen(g, atlas)
+        ties = [a for a in atlas if a["tie"]]
+        ndocs = self.cfg.get("depth_docs", 12)
+        frees = list(range(1, self.cfg.get("depth_max", 140)))
+        jobs = []
+        for i in range(ndocs):
+            tg.force_paren = i % 2 == 0
+            t = tg.document(n_items=g.randrange(1, 3), frags=None)
+            tg.force_paren = False
+            if ties and i % 3 == 2:
+                t = tg.cite(tg.pick(ties)) + "; " + t
+            t = t[:300]
+            if i % 4 == 3:
+                op = {"op": "H1", "text": "", "markup": tg.markup(t), "clean": ["html", "all_whitespace"]}
+            elif i % 4 == 2:
+                op = {"op": "H1", "text": t, "ra": True}
+            else:
+                op = {"op": "H1", "text": t}
+            jobs.append({"op": op, "frees": frees})
+        self.depth = {"documents": 0, "calls_that_returned": 0, "calls_that_raised_RecursionError": 0,
+                      "free_frames": [frees[0], frees[-1]], "disagreements": 0}
+
+        def got(i, job, res):
+            if "_harness" in res:
+                self.harness.append({"depth": res})
+                return
+            self.depth["documents"] += 1
+            self.depth["calls_that_returned"] += res["returned"]
+            self.depth["calls_that_raised_RecursionError"] += res["raised"]
+            base = self.baseline(job["op"])
+            bad = [o for o in res["obs"] if o["od"] != base["od"]]
+            if bad:
+                self.depth["disagreements"] += 1
+                self.suspects.append({"class": "depth", "op": job["op"], "free": bad[0]["free"],
+                                      "frees": [f for f in job["frees"] if f <= bad[0]["free"]]})
+
+        forkpool.run_jobs(jobs, exec_depth, workers=_cpu(), timeout=300, on_result=got,
+                          deadline=time.monotonic() + self.cfg.get("depth_s", 30))
+
+    def judge_depth(self, s):
+        op = s["op"]
+        res = forkpool.fork_call(exec_depth, {"op": op, "frees": s["frees"], "want_full": True}, timeout=300)
+        if "_harness" in res:
+            self.harness.append({"depth_replay": res})
+            return None
+        base = forkpool.fork_call(eval_isolated, op, timeout=120)
+        bad = [o for o in res["obs"] if o["od"] != base["od"]]
+        if not bad:
+            return None
+        return {"class": "purity", "kind": "depth",
+                "signature": {"class": "purity", "how": "stack-depth", "op": op},
+                "op": op, "frees": s["frees"], "free_frames_at_disagreement": bad[0]["free"],
+                "outcomes": {"isolated": base.get("outcome"), f"with {bad[0]['free']} free frames": bad[0].get("outcome")},
+                "note": "a call that returns (does not fail with RecursionError) returns another value when "
+                        "few stack frames are left: some failure inside the call is swallowed"}
+
     def scenario_of(self, prov):
         """Rebuild (and re-execute, to get its explicit schedule) the scenario an
         observation came from."""
@@ -1031,6 +1143,31 @@ class Checker:
         multi = [a for a in atlas if not a["tie"] and a.get("ned", 0) >= 2 and a["form"] == "full"]
         for a in multi:
             oplist.append({"op": "H1", "text": a["t"] + " (1990)" if g.random() < 0.3 else a["t"]})
+        # every reporter string that several editions share, cited with the years
+        # at which one of those editions starts or ends (and the years next to
+        # them): which edition is guessed there depends on how the year limits are
+        # computed -- in every process, whatever its time zone and locale
+        from eyecite.tokenizers import EDITIONS_LOOKUP
+
+        nb = 0
+        for k in sorted(EDITIONS_LOOKUP):
+            eds = EDITIONS_LOOKUP[k]
+            if len(eds) < 2:
+                continue
+            years = set()
+            for e in eds:
+                for d in (e.start, e.end):
+                    if d is not None:
+                        years.update((d.year - 1, d.year, d.year + 1))
+            years = sorted(years)
+            for c in range(0, len(years), 9):
+                t = "; ".join(f"{i + 1} {k} {i + 2} ({y})" for i, y in enumerate(years[c:c + 9]))
+                op = {"op": "H1", "text": t}
+                if nb % 3 == 2:
+                    op["ra"] = True
+                oplist.append(op)
+                nb += 1
+        self.boundary_docs = nb
         ties = [a for a in atlas if a["tie"]]
         for i in range(self.cfg["docs"]):
             x = g.random()
@@ -1261,6 +1398,8 @@ class Checker:
 
     def judge_one(self, s):
         cls = s["class"]
+        if cls == "depth":
+            return self.judge_depth(s)
         if cls == "hashseed" or (cls == "purity" and s["a"][1][0] == "hashseed"
                                   and s["b"][1][0] == "hashseed"):
             op = s["op"]
@@ -1454,6 +1593,12 @@ def run(tier, verif_seed, log=print):
     bootstrap.warm_pattern_caches(log)
     atlas = atlas_mod.build(workers=_cpu())
     log(f"[C15] atlas: {atlas_mod.summary(atlas)} ({time.monotonic() - t0:.1f}s)")
+    if os.environ.get("VERIF_C15_ONLY") == "depth":
+        # development aid (never set by the registered commands): one phase, no evidence
+        ck.phase_depth(atlas)
+        log(f"[C15] stack-depth sweep: {ck.depth}")
+        ck.judge()
+        return report_mod.EXIT_VIOLATION if ck.violations else report_mod.EXIT_OK
     started = ck.phase_sim(atlas)
     log(f"[C15] simulated runs: {ck.cnt['runs']} (started {started}), events={ck.cnt['events']}, "
         f"switches={ck.cnt['switches']}, suspects={len(ck.suspects)} ({time.monotonic() - t0:.1f}s)")
@@ -1463,6 +1608,8 @@ def run(tier, verif_seed, log=print):
         f"{ck.sweep['cancellation_runs']} single-cancellation runs over {ck.sweep['distinct_sites_total']} "
         f"source lines / {ck.sweep['line_events_of_A_total']} line events, "
         f"suspects={len(ck.suspects)} ({time.monotonic() - t0:.1f}s)")
+    ck.phase_depth(atlas)
+    log(f"[C15] stack-depth sweep: {ck.depth} ({time.monotonic() - t0:.1f}s)")
     ck.phase_baselines()
     log(f"[C15] isolated baselines: {ck.baselines['evaluated']}/{ck.baselines['keys']} keys, "
         f"disagreements={ck.baselines['disagreements']} ({time.monotonic() - t0:.1f}s)")
@@ -1500,6 +1647,17 @@ def replay(path, log=print):
         if fa["od"] != fb["od"]:
             log(json.dumps({"op": data["op"], str(a): fa.get("outcome"), str(b): fb.get("outcome")},
                            ensure_ascii=True, default=repr)[:3000])
+            print(f"VIOLATION property={PROP} replay={path}", flush=True)
+            return report_mod.EXIT_VIOLATION
+        log("[C15] replay: not reproduced on this tree")
+        return report_mod.EXIT_OK
+    if data.get("kind") == "depth":
+        # the run's children inherit warmed re/regex module caches; how deep a
+        # call goes depends on them, so the replay starts from the same state
+        bootstrap.warm_pattern_caches(log)
+        v = ck.judge_depth({"op": data["op"], "frees": data["frees"]})
+        if v is not None:
+            log(json.dumps({"op": data["op"], "outcomes": v["outcomes"]}, ensure_ascii=True, default=repr)[:3000])
             print(f"VIOLATION property={PROP} replay={path}", flush=True)
             return report_mod.EXIT_VIOLATION
         log("[C15] replay: not reproduced on this tree")
